@@ -273,6 +273,22 @@ func c10Decodes(ctx *Ctx, b []byte, vb ivg.ViewBox, pal [64]color.RGBA, since []
 	if vb.MinX > vb.MaxX || vb.MinY > vb.MaxY {
 		return nil
 	}
+	// Numbers that are not finite: the Encoder-side clauses are checked on
+	// such histories (no protocol violation, so no error), the decoder-side
+	// clause is not. Whether a decoder may refuse a path coordinate that is
+	// not a number is a question of input validation, which the property
+	// does not settle; a decoder that does (mutants/neutral-reject-nan) is
+	// not reported.
+	for i := range since {
+		for j := 0; j < since[i].K.NArgs(); j++ {
+			if f := since[i].F[j]; f != f || f-f != 0 {
+				if ctx.Stats != nil {
+					ctx.Stats.Add("decode_clause_not_applied_non_finite_numbers", 1)
+				}
+				return nil
+			}
+		}
+	}
 	rd := &world.RecDest{}
 	var err error
 	if p, _, msg := guard(func() { err = decode.Decode(rd, b) }); p {
